@@ -188,6 +188,9 @@ def run_all(scs, par, v, cov):
             r2["wall_s"] = round(time.time() - t0, 1)
             r2["retried"] = r.get("why")
             r = r2
+        if os.environ.get("VERIF_VERBOSE"):
+            print("  scenario %s %-24s %-12s %5.1fs %s %s" % (r["id"], r["cls"], r["outcome"], r["wall_s"],
+                  [x["sig"]["branch"] + "/" + x["sig"]["kind"] for x in r["violations"]], r.get("why", "")[:100]), flush=True)
         return r
     with concurrent.futures.ThreadPoolExecutor(max_workers=par) as ex:
         for r in ex.map(one, scs):
@@ -266,7 +269,13 @@ def corruption_demo(traces, scratch):
     wrongid = [dict(e, src="demo/corrupted-reply-id") for e in base]
     wrongid[replies[len(replies) // 2]] = dict(wrongid[replies[len(replies) // 2]], id="00000000-dead-beef-0000-000000000000")
     regress = [dict(e, src="demo/corrupted-applied") for e in base]
-    regress[publishes[-1]] = dict(regress[publishes[-1]], a=regress[publishes[-1]]["a"] - 2)
+    target = None
+    for a, b in zip(publishes, publishes[1:]):     # two publish events of one incarnation, the later not ahead by more than 1
+        if not any(base[j]["seq"] == 1 for j in range(a + 1, b + 1)) and base[b]["a"] - base[a]["a"] <= 1:
+            target = b
+    if target is None:
+        return None
+    regress[target] = dict(regress[target], a=regress[target]["a"] - 2)
     path = os.path.join(scratch, "trace-demo.ndjson")
     with open(path, "w") as fh:
         for t in (base, dropped, renum, wrongid, regress):
@@ -286,9 +295,8 @@ def corruption_demo(traces, scratch):
                 f = json.loads(s[7:])
                 got[f["src"]] = f["why"]
     want = ["demo/dropped-walsave", "demo/dropped-walsave-renumbered", "demo/corrupted-reply-id", "demo/corrupted-applied"]
-    if "demo/accepted" in got or any(w not in got for w in want):
-        common.die_infra("trace-corruption demo: TraceCluster did not behave as required: %s" % got)
-    return {"trace": src, "events": len(base), "rejected": {k: got[k] for k in want}}
+    return {"trace": src, "events": len(base), "accepted_original": "demo/accepted" not in got,
+            "rejected": {k: got.get(k) for k in want}, "ok": "demo/accepted" not in got and all(w in got for w in want)}
 
 
 # ------------------------------------------------------------------------------------------------ main
@@ -403,6 +411,8 @@ def main():
     print("C08: tier=%s seed=%d scenarios=%d %s classes_exercised=%d traces=%d events=%d model_states=%d wall=%.0fs" %
           (tier, seed, len(results), by_outcome, len(classes_exercised), len(traces), nev, states, time.time() - t0), flush=True)
     if not v.violations:
+        if demo is not None and not demo["ok"]:
+            common.die_infra("trace-corruption demo: TraceCluster did not behave as required: %s" % demo)
         if divergences:
             common.die_infra("conformance divergence without a reproduced property violation (see DIVERGENCE lines)")
         if len(inconclusive) > max(3, len(results) // 4):
